@@ -5,10 +5,13 @@
      THEOREM Spec => []MInv          (MInv = started \in Seq(Ids) /\ MutexInv)
      THEOREM Spec => []Mutex         (at most one operation is in progress)
 
-   MutexInv (InProgress is empty when nothing runs, {running} otherwise) is the
-   part of MC_Serializer_apa's IndInv that carries Mutex; Apalache checks, within
-   its bounds, that the full IndInv implies it (Props).  FIFO is proved by Apalache
-   only (bounded lengths): see notes/X-proofs.md.
+     THEOREM Spec => []FInv          (FInv = the three sequences are in Seq(Ids) /\ Split)
+     THEOREM Spec => []FIFO          (operations start in request order)
+
+   MutexInv (InProgress is empty when nothing runs, {running} otherwise) and Split
+   (reqd = started \o queue) are the parts of MC_Serializer_apa's IndInv that carry
+   Mutex and FIFO; Apalache checks, within its bounds, the full IndInv and that it
+   implies MutexInv (Props).
    Checked with `tlapm SerializerProof.tla`. *)
 EXTENDS SerializerCore, SequenceTheorems, TLAPS
 
@@ -89,4 +92,107 @@ THEOREM Inductive == Spec => []MInv
 THEOREM MutualExclusion == Spec => []Mutex
   <1>1. MInv => Mutex BY DEF MInv, MutexInv, Mutex
   <1> QED BY Inductive, <1>1, PTL
+(* ------------------------------- FIFO ------------------------------------- *)
+\* the part of IndInv that carries FIFO: what was requested is what was started followed by what waits
+FInv == queue \in Seq(Ids) /\ started \in Seq(Ids) /\ reqd \in Seq(Ids) /\ Split
+
+LEMMA SingletonSeq == ASSUME NEW S, NEW x \in S PROVE <<x>> \in Seq(S) /\ Len(<<x>>) = 1 /\ <<x>>[1] = x
+  OBVIOUS
+
+LEMMA AppendConcat ==
+  ASSUME NEW S, NEW s \in Seq(S), NEW q \in Seq(S), NEW x \in S
+  PROVE  Append(s \o q, x) = s \o Append(q, x)
+  <1>1. <<x>> \in Seq(S) BY SingletonSeq
+  <1>2. s \o q \in Seq(S) BY ConcatProperties
+  <1>3. Append(s \o q, x) = (s \o q) \o <<x>> BY <1>2, AppendIsConcat
+  <1>4. (s \o q) \o <<x>> = s \o (q \o <<x>>) BY <1>1, ConcatAssociative
+  <1>5. Append(q, x) = q \o <<x>> BY AppendIsConcat
+  <1> QED BY <1>3, <1>4, <1>5
+
+LEMMA HeadConsTail ==
+  ASSUME NEW S, NEW q \in Seq(S), q # <<>>
+  PROVE  <<Head(q)>> \o Tail(q) = q
+  <1> DEFINE h == <<Head(q)>>
+  <1>1. Head(q) \in S /\ Tail(q) \in Seq(S) /\ Len(Tail(q)) = Len(q) - 1
+        /\ \A i \in 1..Len(Tail(q)) : Tail(q)[i] = q[i + 1]
+    BY HeadTailProperties
+  <1>2. h \in Seq(S) /\ Len(h) = 1 /\ h[1] = Head(q) BY <1>1, SingletonSeq
+  <1>3. Len(q) \in Nat /\ Len(q) > 0 BY LenProperties, EmptySeq
+  <1>4. h \o Tail(q) \in Seq(S) /\ Len(h \o Tail(q)) = Len(q)
+        /\ \A i \in 1..Len(q) : (h \o Tail(q))[i] = IF i <= 1 THEN h[i] ELSE Tail(q)[i - 1]
+    BY <1>1, <1>2, <1>3, ConcatProperties
+  <1>5. Head(q) = q[1] OBVIOUS
+  <1>6. \A i \in 1..Len(q) : (h \o Tail(q))[i] = q[i]
+    <2> TAKE i \in 1..Len(q)
+    <2>1. CASE i = 1 BY <2>1, <1>2, <1>4, <1>5
+    <2>2. CASE i > 1
+      <3>1. i - 1 \in 1..Len(Tail(q)) BY <2>2, <1>1, <1>3
+      <3>2. Tail(q)[i - 1] = q[(i - 1) + 1] BY <3>1, <1>1
+      <3>3. (i - 1) + 1 = i BY <1>3
+      <3> QED BY <2>2, <3>2, <3>3, <1>4
+    <2> QED BY <2>1, <2>2, <1>3
+  <1> QED BY <1>4, <1>6, SeqEqual
+
+LEMMA AppendHeadTail ==
+  ASSUME NEW S, NEW s \in Seq(S), NEW q \in Seq(S), q # <<>>
+  PROVE  Append(s, Head(q)) \o Tail(q) = s \o q
+  <1>1. Head(q) \in S /\ Tail(q) \in Seq(S) BY HeadTailProperties
+  <1>2. <<Head(q)>> \in Seq(S) BY <1>1, SingletonSeq
+  <1>3. Append(s, Head(q)) = s \o <<Head(q)>> BY <1>1, AppendIsConcat
+  <1>4. (s \o <<Head(q)>>) \o Tail(q) = s \o (<<Head(q)>> \o Tail(q)) BY <1>1, <1>2, ConcatAssociative
+  <1>5. <<Head(q)>> \o Tail(q) = q BY HeadConsTail
+  <1> QED BY <1>3, <1>4, <1>5
+
+LEMMA FInitOK == Init => FInv
+  <1> SUFFICES ASSUME Init PROVE FInv OBVIOUS
+  <1>1. queue = <<>> /\ started = <<>> /\ reqd = <<>> BY DEF Init
+  <1>2. <<>> \in Seq(Ids) BY EmptySeq
+  <1>3. <<>> \o <<>> = <<>> BY <1>2, ConcatEmptySeq
+  <1> QED BY <1>1, <1>2, <1>3 DEF FInv, Split
+
+LEMMA FStep == FInv /\ [Next]_vars => FInv'
+  <1> SUFFICES ASSUME FInv, [Next]_vars PROVE FInv' OBVIOUS
+  <1>0. queue \in Seq(Ids) /\ started \in Seq(Ids) /\ reqd \in Seq(Ids) /\ reqd = started \o queue
+    BY DEF FInv, Split
+  <1>1. ASSUME queue' = queue, started' = started, reqd' = reqd PROVE FInv'
+    BY <1>0, <1>1 DEF FInv, Split
+  <1>2. ASSUME NEW id \in Ids, Request(id) PROVE FInv'
+    <2>1. queue' = Append(queue, id) /\ reqd' = Append(reqd, id) /\ started' = started BY <1>2 DEF Request
+    <2>2. queue' \in Seq(Ids) /\ reqd' \in Seq(Ids) BY <1>0, <2>1, AppendProperties
+    <2>3. Append(started \o queue, id) = started \o Append(queue, id) BY <1>0, AppendConcat
+    <2> QED BY <1>0, <2>1, <2>2, <2>3 DEF FInv, Split
+  <1>3. ASSUME NEW id \in Ids, Start(id) PROVE FInv'
+    <2>1. queue # <<>> /\ Head(queue) = id /\ queue' = Tail(queue) /\ started' = Append(started, id) /\ reqd' = reqd
+      BY <1>3 DEF Start, StartOK
+    <2>2. queue' \in Seq(Ids) BY <1>0, <2>1, HeadTailProperties
+    <2>3. started' \in Seq(Ids) BY <1>0, <2>1, AppendProperties
+    <2>4. Append(started, Head(queue)) \o Tail(queue) = started \o queue BY <1>0, <2>1, AppendHeadTail
+    <2> QED BY <1>0, <2>1, <2>2, <2>3, <2>4 DEF FInv, Split
+  <1>4. ASSUME NEW id \in Ids, Finish(id) PROVE FInv'
+    BY <1>1, <1>4 DEF Finish
+  <1>5. ASSUME NEW id \in Ids, Return(id) PROVE FInv'
+    BY <1>1, <1>5 DEF Return
+  <1>6. ASSUME UNCHANGED vars PROVE FInv'
+    BY <1>1, <1>6 DEF vars
+  <1> QED BY <1>2, <1>3, <1>4, <1>5, <1>6 DEF Next
+
+LEMMA FInvGivesFIFO == FInv => FIFO
+  <1> SUFFICES ASSUME FInv PROVE FIFO OBVIOUS
+  <1>0. queue \in Seq(Ids) /\ started \in Seq(Ids) /\ reqd = started \o queue BY DEF FInv, Split
+  <1>1. /\ Len(started \o queue) = Len(started) + Len(queue)
+        /\ \A i \in 1..(Len(started) + Len(queue)) : (started \o queue)[i] = IF i <= Len(started) THEN started[i] ELSE queue[i - Len(started)]
+    BY <1>0, ConcatProperties
+  <1>2. Len(started) \in Nat /\ Len(queue) \in Nat /\ DOMAIN started = 1..Len(started) BY <1>0, LenProperties
+  <1>3. Len(started) <= Len(reqd) BY <1>0, <1>1, <1>2
+  <1>4. \A i \in DOMAIN started : started[i] = reqd[i]
+    <2> TAKE i \in DOMAIN started
+    <2>1. i \in 1..(Len(started) + Len(queue)) /\ i <= Len(started) BY <1>2
+    <2> QED BY <2>1, <1>0, <1>1
+  <1> QED BY <1>3, <1>4 DEF FIFO
+
+THEOREM FifoInductive == Spec => []FInv
+  <1> QED BY FInitOK, FStep, PTL DEF Spec
+
+THEOREM StartInRequestOrder == Spec => []FIFO
+  <1> QED BY FifoInductive, FInvGivesFIFO, PTL
 =============================================================================
